@@ -264,6 +264,9 @@ func genExtraTable(r *simrt.RNG, used map[string]bool, srs gpkgh.SRS, p int, k i
 	}
 	c := r.Intn(2*p + 2)
 	base := float64(1000000*k + r.Intn(500000))
+	if r.Chance(0.3) {
+		base = -base - 100000
+	}
 	fid += int64(1 + r.Intn(50))
 	for i := 0; i < c; i++ {
 		var row gpkgh.Row
@@ -373,6 +376,12 @@ func genWork(seed uint64) (gwork, simrt.FaultPlan, simrt.MapPolicy, uint64) {
 	}
 	w.PageSize = p
 	base := float64(r.Intn(500000))
+	switch x := r.Intn(20); {
+	case x < 5: // every coordinate negative (west of Greenwich, south of the equator)
+		base = -float64(100000 + r.Intn(500000))
+	case x < 7: // around the origin, both signs
+		base = -float64(2000 + r.Intn(8000))
+	}
 	fid := int64(1 + r.Intn(1000))
 	allEmptyPage := r.Chance(0.08)
 	for i := 0; i < c; i++ {
